@@ -464,7 +464,7 @@ def wrap (g : Global) (r : Req) : Out :=
       | .unknownDedicated => { effects := [], err := false, why := "unknown-dedicated" }
       | .error => { effects := [], err := true, why := "device-error" }
       | _ =>
-        if r.ecsBad then { effects := [.formerr], err := true, why := "formerr" }
+        if r.ecsBad then { effects := [.formerr], err := false, why := "formerr" }
         else { effects := [.next], err := false, why := "next", info := some (reqInfo r) }
 
 /-- Everything the client and the later stages can observe of one request: the middleware's own effects
